@@ -191,9 +191,9 @@ def proof_audit(pid: str, leanchecker: bool = False) -> dict:
     text = p.stdout + p.stderr
     # parse: "'C02.foo' depends on axioms: [a, b]"  or "'C02.foo' does not depend on any axioms"
     seen = {}
-    for m in re.finditer(r"'([^']+)' depends on axioms:\s*\[([^\]]*)\]", text, re.S):
+    for m in re.finditer(r"^'([^\n]+?)' depends on axioms:\s*\[([^\]]*)\]", text, re.S | re.M):
         seen[m.group(1)] = {a.strip() for a in m.group(2).replace("\n", " ").split(",") if a.strip()}
-    for m in re.finditer(r"'([^']+)' does not depend on any axioms", text):
+    for m in re.finditer(r"^'([^\n]+?)' does not depend on any axioms", text, re.M):
         seen[m.group(1)] = set()
     res["axioms"] = {k: sorted(v) for k, v in seen.items()}
     for t in thms:
